@@ -1,4 +1,4 @@
-(* C18/ProofsRepaired.v — the repaired store converges under EVERY schedule.
+(* C18/ProofsConverge.v — the ticket-guarded store converges under EVERY schedule (both variants).
    Invariant RInv (inductive over schedule prefixes):
      ticket[u] is the last started handler for u;
      a handler past its commit (store/remove) and before its publish holds the write guard, the
@@ -17,23 +17,14 @@ Proof.
   intros Hd Hp. destruct o as [[o' u0 v t|u0]|]; simpl; [rewrite Hd, Hp|rewrite Hd|]; auto.
 Qed.
 
-Lemma of_note_repaired_pre n : exists pre, of_note Repaired n = pre ++ [commit n; final n].
-Proof.
-  destruct n as [o u v t|u]; simpl.
-  - destruct (tok t).
-    + exists (DepsRead :: map DepsPublish (timports t)). reflexivity.
-    + exists []. reflexivity.
-  - exists []. reflexivity.
-Qed.
-
-Lemma exec_final st i n st' : exec Repaired st i (final n) [] = Some st' ->
+Lemma exec_final st i n st' : exec st i (final n) [] = Some st' ->
   st' = mkState (docs st) (fpub n :: pubs st) (readers st) None (started st) (updn (segs st) i []) (ticket st).
 Proof. destruct n; simpl; intros H; inversion H; reflexivity. Qed.
 
-Lemma exec_commit st i n st' : exec Repaired st i (commit n) [final n] = Some st' ->
+Lemma exec_commit vr st i n st' : exec st i (commit vr n) [final n] = Some st' ->
   writer st = None /\
   ((ticket st (nuri n) = Some i /\
-    st' = mkState (upd (docs st) (nuri n) (content n)) (pubs st) (readers st) (Some i) (started st)
+    st' = mkState (cdocs vr n (docs st)) (pubs st) (readers st) (Some i) (started st)
                   (updn (segs st) i [final n]) (ticket st)) \/
    (ticket st (nuri n) <> Some i /\
     st' = mkState (docs st) (pubs st) (readers st) (writer st) (started st) (updn (segs st) i []) (ticket st))).
@@ -44,18 +35,13 @@ Proof.
     - inversion H; apply Nat.eqb_refl. }
   assert (HL : lock_free st = true -> writer st = None).
   { unfold lock_free, no_writer. destruct (writer st); simpl; [discriminate|reflexivity]. }
-  destruct n as [o u v t|u]; simpl; intros H.
-  - destruct (lock_free st) eqn:L; [|discriminate]. split; [auto|].
-    destruct (has_ticket st u i) eqn:T; inversion H; subst st'.
-    + left. split; [apply HT; assumption|reflexivity].
-    + right. split; [intros C; apply HT in C; congruence|reflexivity].
-  - destruct (lock_free st) eqn:L; [|discriminate]. split; [auto|].
-    destruct (has_ticket st u i) eqn:T; inversion H; subst st'.
-    + left. split; [apply HT; assumption|reflexivity].
-    + right. split; [intros C; apply HT in C; congruence|reflexivity].
+  unfold cdocs, commit. destruct n as [o u v t|u]; [destruct (untouched vr (Doc o u v t)) eqn:U|destruct vr]; simpl; intros H;
+    (destruct (lock_free st) eqn:L; [|discriminate]); (split; [auto|]);
+    destruct (has_ticket st u i) eqn:T; inversion H; subst st';
+    first [left; split; [apply HT; assumption|reflexivity] | right; split; [intros C; apply HT in C; congruence|reflexivity]].
 Qed.
 
-Lemma exec_deps st i s rest st' : is_deps s = true -> exec Repaired st i s rest = Some st' ->
+Lemma exec_deps st i s rest st' : is_deps s = true -> exec st i s rest = Some st' ->
   exists rd ps, st' = mkState (docs st) ps rd (writer st) (started st) (updn (segs st) i rest) (ticket st) /\
     (ps = pubs st \/ exists u', docs st u' = None /\ ps = dep_pub st u' :: pubs st).
 Proof.
@@ -64,23 +50,23 @@ Proof.
   - intros H; inversion H. destruct (docs st u') eqn:D; eexists; eexists; split; try reflexivity; eauto.
 Qed.
 
-Record RInv (h : list note) (st : state) : Prop := {
+Record RInv (vr : variant) (h : list note) (st : state) : Prop := {
   ri_started : (started st <= length h)%nat;
   ri_unstarted : forall j, (started st <= j)%nat -> segs st j = [];
-  ri_shape : forall j n, nth_error h j = Some n -> (j < started st)%nat -> shape n (segs st j);
+  ri_shape : forall j n, nth_error h j = Some n -> (j < started st)%nat -> shape vr n (segs st j);
   ri_ticket : forall u l, ticket st u = Some l ->
       (l < started st)%nat /\ (forall n, nth_error h l = Some n -> nuri n = u);
   ri_latest : forall u, latest (firstn (started st) h) u =
       match ticket st u with Some l => nth_error h l | None => None end;
   ri_final : forall j n, nth_error h j = Some n -> (j < started st)%nat -> segs st j = [final n] ->
-      writer st = Some j /\ docs st (nuri n) = content n /\
+      writer st = Some j /\ (untouched vr n = false -> docs st (nuri n) = content n) /\
       (forall l nl, ticket st (nuri n) = Some l -> l <> j -> nth_error h l = Some nl ->
-         exists pre, segs st l = pre ++ [commit nl; final nl]);
+         exists pre, segs st l = pre ++ [commit vr nl; final nl]);
   ri_settled : forall u l n, ticket st u = Some l -> nth_error h l = Some n -> segs st l = [] ->
-      settled st u (Some n)
+      untouched vr n = false -> settled st u (Some n)
 }.
 
-Lemma RInv_init h : RInv h init.
+Lemma RInv_init vr h : RInv vr h init.
 Proof.
   constructor; simpl; intros; try discriminate; try lia; auto.
 Qed.
@@ -91,127 +77,127 @@ Ltac same_note :=
       rewrite H1 in H2; inversion H2; subst; clear H2
   end.
 
-Lemma RInv_start h st k n : RInv h st -> k = started st -> nth_error h k = Some n ->
-  RInv h (start Repaired st k n).
+Lemma RInv_start vr h st k n : RInv vr h st -> k = started st -> nth_error h k = Some n ->
+  RInv vr h (start vr st k n).
 Proof.
   intros I Hk Hn. subst k.
   assert (Hlt : (started st < length h)%nat) by (apply nth_error_Some; congruence).
   constructor; unfold start; cbn [docs pubs readers writer started segs ticket].
   - lia.
-  - intros j Hj. rewrite updn_other by lia. apply (ri_unstarted _ _ I). lia.
+  - intros j Hj. rewrite updn_other by lia. apply (ri_unstarted _ _ _ I). lia.
   - intros j nj Hnj Hj. destruct (Nat.eq_dec j (started st)) as [->|Hne].
-    + same_note. rewrite updn_same. apply shape_of_note_repaired.
-    + rewrite updn_other by assumption. apply (ri_shape _ _ I); [assumption|lia].
+    + same_note. rewrite updn_same. apply shape_of_note.
+    + rewrite updn_other by assumption. apply (ri_shape _ _ _ I); [assumption|lia].
   - intros u l Hl. unfold upd in Hl. destruct (u =? nuri n) eqn:E.
     + apply Z.eqb_eq in E. inversion Hl; subst l. split; [lia|]. intros n' Hn'. same_note. auto.
-    + destruct (ri_ticket _ _ I u l Hl) as [A B]. split; [lia|assumption].
+    + destruct (ri_ticket _ _ _ I u l Hl) as [A B]. split; [lia|assumption].
   - intros u. rewrite (firstn_snoc h _ n Hn), latest_snoc. unfold upd.
-    rewrite (Z.eqb_sym (nuri n) u). destruct (u =? nuri n); [symmetry; assumption | apply (ri_latest _ _ I)].
+    rewrite (Z.eqb_sym (nuri n) u). destruct (u =? nuri n); [symmetry; assumption | apply (ri_latest _ _ _ I)].
   - intros j nj Hnj Hj Hs. destruct (Nat.eq_dec j (started st)) as [->|Hne].
-    + same_note. rewrite updn_same in Hs. destruct (of_note_repaired_pre nj) as [pre Hp].
+    + same_note. rewrite updn_same in Hs. destruct (of_note_pre vr nj) as [pre [_ Hp]].
       rewrite Hp in Hs. exfalso; eapply shape_pre_not_final; eassumption.
     + rewrite updn_other in Hs by assumption.
-      destruct (ri_final _ _ I j nj Hnj ltac:(lia) Hs) as [A [B C]]. split; [assumption|]. split; [assumption|].
+      destruct (ri_final _ _ _ I j nj Hnj ltac:(lia) Hs) as [A [B C]]. split; [assumption|]. split; [assumption|].
       intros l nl Hl Hlj Hnl. unfold upd in Hl. destruct (nuri nj =? nuri n) eqn:E.
-      * inversion Hl; subst l. same_note. rewrite updn_same. apply of_note_repaired_pre.
-      * destruct (ri_ticket _ _ I _ _ Hl) as [Hlt' _]. rewrite updn_other by lia. eapply C; eassumption.
-  - intros u l nl Hl Hnl Hs. unfold upd in Hl. destruct (u =? nuri n) eqn:E.
-    + inversion Hl; subst l. rewrite updn_same in Hs. destruct (of_note_repaired_pre n) as [pre Hp].
+      * inversion Hl; subst l. same_note. rewrite updn_same. destruct (of_note_pre vr nl) as [pre0 [_ Hp0]]. exists pre0; exact Hp0.
+      * destruct (ri_ticket _ _ _ I _ _ Hl) as [Hlt' _]. rewrite updn_other by lia. eapply C; eassumption.
+  - intros u l nl Hl Hnl Hs Hun. unfold upd in Hl. destruct (u =? nuri n) eqn:E.
+    + inversion Hl; subst l. rewrite updn_same in Hs. destruct (of_note_pre vr n) as [pre [_ Hp]].
       rewrite Hp in Hs. exfalso; eapply shape_pre_nonnil; eassumption.
-    + destruct (ri_ticket _ _ I _ _ Hl) as [Hlt' _]. rewrite updn_other in Hs by lia.
-      eapply (settled_ext st); [| |eapply (ri_settled _ _ I); eassumption]; reflexivity.
+    + destruct (ri_ticket _ _ _ I _ _ Hl) as [Hlt' _]. rewrite updn_other in Hs by lia.
+      eapply (settled_ext st); [| |eapply (ri_settled _ _ _ I); eassumption]; reflexivity.
 Qed.
 
-Lemma RInv_exec h st i s rest st' : RInv h st -> (i < started st)%nat -> segs st i = s :: rest ->
-  exec Repaired st i s rest = Some st' -> RInv h st'.
+Lemma RInv_exec vr h st i s rest st' : RInv vr h st -> (i < started st)%nat -> segs st i = s :: rest ->
+  exec st i s rest = Some st' -> RInv vr h st'.
 Proof.
   intros I Hi Hs Hx.
-  destruct (nth_error_lt h i) as [ni Hni]; [pose proof (ri_started _ _ I); lia|].
-  pose proof (ri_shape _ _ I i ni Hni Hi) as Hsh. rewrite Hs in Hsh.
-  destruct (shape_cons _ _ _ Hsh) as [[-> ->]|[[-> ->]|[Hd [pre [Hpre ->]]]]].
+  destruct (nth_error_lt h i) as [ni Hni]; [pose proof (ri_started _ _ _ I); lia|].
+  pose proof (ri_shape _ _ _ I i ni Hni Hi) as Hsh. rewrite Hs in Hsh.
+  destruct (shape_cons _ _ _ _ Hsh) as [[-> ->]|[[-> ->]|[Hd [pre [Hpre ->]]]]].
   - (* final: publish, release *)
     apply exec_final in Hx. subst st'.
-    destruct (ri_final _ _ I i ni Hni Hi Hs) as [Fw [Fd Fo]].
+    destruct (ri_final _ _ _ I i ni Hni Hi Hs) as [Fw [Fd Fo]].
     constructor; cbn [docs pubs readers writer started segs ticket].
-    + apply (ri_started _ _ I).
-    + intros j Hj. rewrite updn_other by lia. apply (ri_unstarted _ _ I); assumption.
+    + apply (ri_started _ _ _ I).
+    + intros j Hj. rewrite updn_other by lia. apply (ri_unstarted _ _ _ I); assumption.
     + intros j nj Hnj Hj. destruct (Nat.eq_dec j i) as [->|Hne].
       * rewrite updn_same. left; reflexivity.
-      * rewrite updn_other by assumption. apply (ri_shape _ _ I); assumption.
-    + apply (ri_ticket _ _ I).
-    + apply (ri_latest _ _ I).
+      * rewrite updn_other by assumption. apply (ri_shape _ _ _ I); assumption.
+    + apply (ri_ticket _ _ _ I).
+    + apply (ri_latest _ _ _ I).
     + intros j nj Hnj Hj Hsj. destruct (Nat.eq_dec j i) as [->|Hne].
       * rewrite updn_same in Hsj. discriminate.
       * rewrite updn_other in Hsj by assumption.
-        destruct (ri_final _ _ I j nj Hnj Hj Hsj) as [A _]. rewrite Fw in A. inversion A. congruence.
-    + intros u l nl Hl Hnl Hsl. destruct (Nat.eq_dec l i) as [->|Hne].
-      * same_note. destruct (ri_ticket _ _ I _ _ Hl) as [_ Hu]. specialize (Hu _ Hni). subst u.
-        destruct nl as [o u v t|u]; simpl in *.
+        destruct (ri_final _ _ _ I j nj Hnj Hj Hsj) as [A _]. rewrite Fw in A. inversion A. congruence.
+    + intros u l nl Hl Hnl Hsl Hun. destruct (Nat.eq_dec l i) as [->|Hne].
+      * same_note. destruct (ri_ticket _ _ _ I _ _ Hl) as [_ Hu]. specialize (Hu _ Hni). subst u.
+        specialize (Fd Hun). destruct nl as [o u v t|u]; simpl in *.
         -- split; [assumption|]. unfold own_pub at 1. simpl. rewrite Z.eqb_refl. reflexivity.
         -- assumption.
       * rewrite updn_other in Hsl by assumption.
         destruct (Z.eq_dec (nuri ni) u) as [E|E].
         -- subst u. destruct (Fo l nl Hl Hne Hnl) as [pre Hp]. rewrite Hp in Hsl.
            exfalso; eapply shape_pre_nonnil; eassumption.
-        -- eapply (settled_ext st); [reflexivity| |eapply (ri_settled _ _ I); eassumption].
+        -- eapply (settled_ext st); [reflexivity| |eapply (ri_settled _ _ _ I); eassumption].
            cbn [pubs]. rewrite last_pub_cons, puri_fpub. destruct (nuri ni =? u) eqn:E'; [apply Z.eqb_eq in E'; contradiction|reflexivity].
   - (* commit: store / remove under the ticket guard *)
-    apply exec_commit in Hx. destruct Hx as [Hw [[Ht ->]|[Ht ->]]].
+    apply (exec_commit vr) in Hx. destruct Hx as [Hw [[Ht ->]|[Ht ->]]].
     + constructor; cbn [docs pubs readers writer started segs ticket].
-      * apply (ri_started _ _ I).
-      * intros j Hj. rewrite updn_other by lia. apply (ri_unstarted _ _ I); assumption.
+      * apply (ri_started _ _ _ I).
+      * intros j Hj. rewrite updn_other by lia. apply (ri_unstarted _ _ _ I); assumption.
       * intros j nj Hnj Hj. destruct (Nat.eq_dec j i) as [->|Hne].
         -- same_note. rewrite updn_same. right; left; reflexivity.
-        -- rewrite updn_other by assumption. apply (ri_shape _ _ I); assumption.
-      * apply (ri_ticket _ _ I).
-      * apply (ri_latest _ _ I).
+        -- rewrite updn_other by assumption. apply (ri_shape _ _ _ I); assumption.
+      * apply (ri_ticket _ _ _ I).
+      * apply (ri_latest _ _ _ I).
       * intros j nj Hnj Hj Hsj. destruct (Nat.eq_dec j i) as [->|Hne].
-        -- same_note. split; [reflexivity|]. split; [apply upd_same|].
+        -- same_note. split; [reflexivity|]. split; [apply cdocs_same|].
            intros l nl Hl Hli. rewrite Ht in Hl. inversion Hl. congruence.
         -- rewrite updn_other in Hsj by assumption.
-           destruct (ri_final _ _ I j nj Hnj Hj Hsj) as [A _]. congruence.
-      * intros u l nl Hl Hnl Hsl. destruct (Nat.eq_dec l i) as [->|Hne].
+           destruct (ri_final _ _ _ I j nj Hnj Hj Hsj) as [A _]. congruence.
+      * intros u l nl Hl Hnl Hsl Hun. destruct (Nat.eq_dec l i) as [->|Hne].
         -- rewrite updn_same in Hsl. discriminate.
         -- rewrite updn_other in Hsl by assumption.
-           eapply (settled_ext st); [| |eapply (ri_settled _ _ I); eassumption]; [|reflexivity].
-           cbn [docs]. apply upd_other. intros ->. rewrite Ht in Hl. inversion Hl. congruence.
+           eapply (settled_ext st); [| |eapply (ri_settled _ _ _ I); eassumption]; [|reflexivity].
+           cbn [docs]. apply cdocs_other. intros ->. rewrite Ht in Hl. inversion Hl. congruence.
     + constructor; cbn [docs pubs readers writer started segs ticket].
-      * apply (ri_started _ _ I).
-      * intros j Hj. rewrite updn_other by lia. apply (ri_unstarted _ _ I); assumption.
+      * apply (ri_started _ _ _ I).
+      * intros j Hj. rewrite updn_other by lia. apply (ri_unstarted _ _ _ I); assumption.
       * intros j nj Hnj Hj. destruct (Nat.eq_dec j i) as [->|Hne].
         -- rewrite updn_same. left; reflexivity.
-        -- rewrite updn_other by assumption. apply (ri_shape _ _ I); assumption.
-      * apply (ri_ticket _ _ I).
-      * apply (ri_latest _ _ I).
+        -- rewrite updn_other by assumption. apply (ri_shape _ _ _ I); assumption.
+      * apply (ri_ticket _ _ _ I).
+      * apply (ri_latest _ _ _ I).
       * intros j nj Hnj Hj Hsj. destruct (Nat.eq_dec j i) as [->|Hne].
         -- rewrite updn_same in Hsj. discriminate.
         -- rewrite updn_other in Hsj by assumption.
-           destruct (ri_final _ _ I j nj Hnj Hj Hsj) as [A _]. congruence.
-      * intros u l nl Hl Hnl Hsl. destruct (Nat.eq_dec l i) as [->|Hne].
-        -- same_note. destruct (ri_ticket _ _ I _ _ Hl) as [_ Hu]. specialize (Hu _ Hni). subst u. contradiction.
+           destruct (ri_final _ _ _ I j nj Hnj Hj Hsj) as [A _]. congruence.
+      * intros u l nl Hl Hnl Hsl Hun. destruct (Nat.eq_dec l i) as [->|Hne].
+        -- same_note. destruct (ri_ticket _ _ _ I _ _ Hl) as [_ Hu]. specialize (Hu _ Hni). subst u. contradiction.
         -- rewrite updn_other in Hsl by assumption.
-           eapply (settled_ext st); [| |eapply (ri_settled _ _ I); eassumption]; reflexivity.
+           eapply (settled_ext st); [| |eapply (ri_settled _ _ _ I); eassumption]; reflexivity.
   - (* dependency phase *)
     destruct (exec_deps _ _ _ _ _ Hd Hx) as [rd [ps [-> Hps]]].
     constructor; cbn [docs pubs readers writer started segs ticket].
-    + apply (ri_started _ _ I).
-    + intros j Hj. rewrite updn_other by lia. apply (ri_unstarted _ _ I); assumption.
+    + apply (ri_started _ _ _ I).
+    + intros j Hj. rewrite updn_other by lia. apply (ri_unstarted _ _ _ I); assumption.
     + intros j nj Hnj Hj. destruct (Nat.eq_dec j i) as [->|Hne].
       * same_note. rewrite updn_same. right; right. exists pre; auto.
-      * rewrite updn_other by assumption. apply (ri_shape _ _ I); assumption.
-    + apply (ri_ticket _ _ I).
-    + apply (ri_latest _ _ I).
+      * rewrite updn_other by assumption. apply (ri_shape _ _ _ I); assumption.
+    + apply (ri_ticket _ _ _ I).
+    + apply (ri_latest _ _ _ I).
     + intros j nj Hnj Hj Hsj. destruct (Nat.eq_dec j i) as [->|Hne].
       * rewrite updn_same in Hsj. same_note. exfalso; eapply shape_pre_not_final; eassumption.
       * rewrite updn_other in Hsj by assumption.
-        destruct (ri_final _ _ I j nj Hnj Hj Hsj) as [A [B C]]. split; [assumption|]. split; [assumption|].
+        destruct (ri_final _ _ _ I j nj Hnj Hj Hsj) as [A [B C]]. split; [assumption|]. split; [assumption|].
         intros l nl Hl Hlj Hnl. destruct (Nat.eq_dec l i) as [->|Hne'].
         -- same_note. rewrite updn_same. eauto.
         -- rewrite updn_other by assumption. eapply C; eassumption.
-    + intros u l nl Hl Hnl Hsl. destruct (Nat.eq_dec l i) as [->|Hne].
+    + intros u l nl Hl Hnl Hsl Hun. destruct (Nat.eq_dec l i) as [->|Hne].
       * rewrite updn_same in Hsl. exfalso; eapply shape_pre_nonnil; eassumption.
       * rewrite updn_other in Hsl by assumption.
-        pose proof (ri_settled _ _ I u l nl Hl Hnl Hsl) as S0.
+        pose proof (ri_settled _ _ _ I u l nl Hl Hnl Hsl Hun) as S0.
         destruct Hps as [->|[u' [Hu' ->]]].
         -- eapply (settled_ext st); [| |exact S0]; reflexivity.
         -- destruct (Z.eq_dec u' u) as [->|E].
@@ -220,7 +206,7 @@ Proof.
               destruct (u' =? u) eqn:E'; [apply Z.eqb_eq in E'; contradiction|reflexivity].
 Qed.
 
-Lemma RInv_step h st k st' : RInv h st -> step Repaired h st k = Some st' -> RInv h st'.
+Lemma RInv_step vr h st k st' : RInv vr h st -> step vr h st k = Some st' -> RInv vr h st'.
 Proof.
   intros I H. destruct (step_cases _ _ _ _ _ H) as [[Hk [n [Hn ->]]]|[Hk [s [rest [Hs Hx]]]]].
   - apply RInv_start; assumption.
@@ -236,16 +222,52 @@ Proof.
   apply B in Hin. destruct (segs st j); [reflexivity|discriminate].
 Qed.
 
+(* what the invariant gives at quiescence, for both variants *)
+Lemma converges_gen vr h sch st :
+  run vr h sch = Some st -> quiescentb h st = true ->
+  forall u, match latest h u with
+            | Some n => untouched vr n = false -> settled st u (Some n)
+            | None => True
+            end.
+Proof.
+  intros Hr Hq. unfold run in Hr.
+  assert (I : RInv vr h st).
+  { eapply (run_from_inv (RInv vr h)); [|apply RInv_init|eassumption]. intros; eapply RInv_step; eassumption. }
+  destruct (quiescentb_spec _ _ Hq) as [Hlen Hall].
+  intros u. pose proof (ri_latest _ _ _ I u) as L. rewrite Hlen, firstn_all in L. rewrite L.
+  destruct (ticket st u) as [l|] eqn:T; [|exact Logic.I].
+  destruct (ri_ticket _ _ _ I u l T) as [Hl _].
+  destruct (nth_error_lt h l) as [n Hn]; [lia|]. rewrite Hn.
+  intros Hun. eapply (ri_settled _ _ _ I); eauto.
+Qed.
+
 Theorem converges_repaired h sch st :
   run Repaired h sch = Some st -> quiescentb h st = true -> converged h st.
 Proof.
-  intros Hr Hq. unfold run in Hr.
-  assert (I : RInv h st).
-  { eapply (run_from_inv (RInv h)); [|apply RInv_init|eassumption]. intros; eapply RInv_step; eassumption. }
-  destruct (quiescentb_spec _ _ Hq) as [Hlen Hall].
-  intros u. pose proof (ri_latest _ _ I u) as L. rewrite Hlen, firstn_all in L. rewrite L.
-  destruct (ticket st u) as [l|] eqn:T; [|exact Logic.I].
-  destruct (ri_ticket _ _ I u l T) as [Hl _].
-  destruct (nth_error_lt h l) as [n Hn]; [lia|]. rewrite Hn.
-  eapply (ri_settled _ _ I); eauto.
+  intros Hr Hq u. pose proof (converges_gen Repaired h sch st Hr Hq u) as G.
+  destruct (latest h u) as [n|]; [|exact Logic.I]. apply G. destruct n; reflexivity.
+Qed.
+
+Lemma latest_in l u n : latest l u = Some n -> In n l /\ nuri n = u.
+Proof.
+  induction l as [|a l IH]; simpl; [discriminate|].
+  destruct (latest l u) as [m|] eqn:E.
+  - intros H; inversion H; subst. destruct (IH eq_refl) as [A B]. auto.
+  - destruct (nuri a =? u) eqn:E'; [|discriminate]. intros H; inversion H; subst.
+    apply Z.eqb_eq in E'. auto.
+Qed.
+
+(* the code as it is: every history whose last text per document parses, every fair schedule *)
+Theorem converges_unless_syntax h sch st :
+  known_syntax h = false ->
+  run Faithful h sch = Some st -> quiescentb h st = true -> converged h st.
+Proof.
+  intros Hsyn Hr Hq u. pose proof (converges_gen Faithful h sch st Hr Hq u) as G.
+  destruct (latest h u) as [n|] eqn:L; [|exact Logic.I]. apply G.
+  destruct n as [o u0 v t|u0]; [|reflexivity]. simpl. destruct (tok t) eqn:T; [reflexivity|]. exfalso.
+  destruct (latest_in _ _ _ L) as [Hin Hu].
+  assert (known_syntax h = true) as C; [|congruence].
+  unfold known_syntax. apply existsb_exists. exists u. split.
+  - unfold uris. rewrite <- Hu. apply in_map; assumption.
+  - rewrite L, T. reflexivity.
 Qed.
